@@ -16,6 +16,7 @@ import (
 	"net/url"
 	"os"
 	"runtime"
+	"sort"
 	"strings"
 	"sync"
 
@@ -90,6 +91,61 @@ func (e *entT) UnmarshalRestLi(r restlicodec.Reader) error {
 		}
 		return err
 	})
+}
+
+// ---- phase 0: cold start.  The very first deserialisations of a record type in the process happen concurrently (the
+// first requests hitting a freshly started handler): per-type metadata shared by all readers must be ready, or be made
+// ready safely.  Every goroutine must get exactly the serial outcome: the complete document decodes, the incomplete one
+// reports exactly the required fields it lacks.  Must run before anything else in the process reads these types.
+type probe struct {
+	name, doc string
+	missing   []string // nil: decodes
+	decode    func(string) error
+}
+
+func phaseCold(n int, stats map[string]int) {
+	probes := append(coldExtra(), []probe{
+		{"Link", `{"href":"h"}`, []string{"rel", "type"}, func(d string) error { return decodeInto(d, new(common.Link)) }},
+		{"Link", `{"rel":"r","href":"h","type":"t"}`, nil, func(d string) error { return decodeInto(d, new(common.Link)) }},
+		{"ErrorResponse", `{"status":500,"message":"m"}`, nil, func(d string) error { return decodeInto(d, new(common.ErrorResponse)) }},
+	}...)
+	start := make(chan struct{})
+	var wg sync.WaitGroup
+	for g := 0; g < 2*n; g++ {
+		wg.Add(1)
+		go func(g int) {
+			defer wg.Done()
+			<-start
+			for i := range probes {
+				p := probes[(i+g)%len(probes)]
+				err := p.decode(p.doc)
+				got := []string(nil)
+				if err != nil {
+					mf, ok := err.(*restlicodec.MissingRequiredFieldsError)
+					if !ok {
+						violation("C17/cold-start/"+p.name, fmt.Sprintf("first concurrent decode of %s failed with %v", p.doc, err), nil)
+						continue
+					}
+					got = append(got, mf.Fields...)
+					sort.Strings(got)
+				}
+				if strings.Join(got, ",") != strings.Join(p.missing, ",") {
+					violation("C17/cold-start/"+p.name, fmt.Sprintf("first concurrent decode of %s reports missing required fields %v, serially %v", p.doc, got, p.missing), nil)
+				}
+			}
+		}(g)
+	}
+	close(start)
+	wg.Wait()
+	stats["cold_start_decodes"] = 2 * n * len(probes)
+}
+
+func decodeInto(doc string, v restlicodec.Unmarshaler) error {
+	r, err := restlicodec.NewJsonReader([]byte(doc))
+	if err != nil {
+		return err
+	}
+	return v.UnmarshalRestLi(r)
 }
 
 // ---- phase 1: D2 resolver
@@ -263,6 +319,7 @@ func main() {
 	out = bufio.NewWriterSize(os.Stdout, 1<<20)
 	defer out.Flush()
 	stats := map[string]int{}
+	phaseCold(*n, stats)
 	phaseD2(*n, *iters, stats)
 	phaseServer(*n, *iters, stats)
 	phaseClient(*n, *iters, stats)
